@@ -127,8 +127,10 @@ static void gen_case(vh::Rng & r, CaseData & cd)
   cd.scale = r.coin(0.2) ? 1.0 : r.logu(1e-3, 1e3);
   cd.reuse_preconditioned_sets = r.coin();
   // correspondences: identity / permuted / subset with distractors
-  int ck = r.range(0, 2);
-  cd.corr_kind = ck == 0 ? "identity" : ck == 1 ? "permuted" : "subset";
+  int ck = r.range(0, 3);
+  const bool far_rest = ck == 3;          // subset whose points form a tight cluster far from the other points
+  if (ck == 3) {ck = 2;}
+  cd.corr_kind = ck == 0 ? "identity" : ck == 1 ? "permuted" : (far_rest ? "subset_far_from_rest" : "subset");
   size_t extra_s = ck == 2 ? r.range(1, 20) : 0, extra_t = ck == 2 ? r.range(1, 20) : 0;
   size_t ns = cd.n + extra_s, nt = cd.n + extra_t;
   std::vector<size_t> ps(ns), pt(nt);
@@ -139,12 +141,13 @@ static void gen_case(vh::Rng & r, CaseData & cd)
   if (ck >= 1) {shuffle(pt);}
   if (ck == 2) {shuffle(ps);}
   cd.src_full.assign(ns, VecL::Zero(d)); cd.tgt_full.assign(nt, VecL::Zero(d));
+  const LD rest_scale = far_rest ? (LD)r.logu(1e2, 1e6) : 3.0L;   // where the un-corresponded points lie
   for (size_t i = 0; i < ns; ++i) {
-    VecL p(d); for (int k = 0; k < d; ++k) {p(k) = r.normal() * cd.spread * 3;}
+    VecL p(d); for (int k = 0; k < d; ++k) {p(k) = r.normal() * cd.spread * rest_scale;}
     cd.src_full[i] = p + off;
   }
   for (size_t i = 0; i < nt; ++i) {
-    VecL p(d); for (int k = 0; k < d; ++k) {p(k) = r.normal() * cd.spread * 3;}
+    VecL p(d); for (int k = 0; k < d; ++k) {p(k) = r.normal() * cd.spread * rest_scale;}
     cd.tgt_full[i] = p - off;
   }
   cd.corr.clear();
